@@ -257,7 +257,7 @@ impl World {
             }
             "add" => {
                 let (id, t, v) = (op["id"].as_u64().unwrap(), op["t"].as_str().unwrap().to_string(), op["v"].as_i64().unwrap_or(0));
-                let d = self.doc(id, &t, v);
+                let d = self.doc_padded(id, &t, v, op["pad"].as_u64().unwrap_or(0));
                 let Some(w) = self.writer.as_ref() else { return nowriter() };
                 match w.add_document(d) {
                     Ok(o) => json!({"ev":"add","ok":true,"id":id,"t":t,"v":v,"opstamp":o}),
